@@ -698,6 +698,11 @@ func (vc *FnVC) applyContract(fc *FuncContract, sig *types.Signature, args []Val
 	}
 	// requires
 	for i, cl := range fc.Requires {
+		if !vc.clauseApplies(cl) {
+			// a pre-condition scoped to another property: its matching post-conditions are not
+			// used for this property either
+			continue
+		}
 		t := vc.trBool(cl.E, env)
 		vc.oblige("call-pre", fmt.Sprintf("%s/%d", label, i), t, vc.fnTags(), cl.Src)
 	}
